@@ -131,7 +131,7 @@ pub fn replay_bounds(case: &Value, idx: usize) -> (crate::erralg::Outcome, Strin
     let wher = "where U: Default, V: 'a";
     let fld = |f: &Value, k: usize, named: bool| {
         let uses: Vec<String> = f["uses"].as_array().unwrap().iter().map(|s| s.as_str().unwrap().to_string()).collect();
-        format!("{}{}{}", if f["skip"] == true { "#[darling(skip)] " } else { "" }, if named { format!("f{}: ", k) } else { String::new() }, field_type(&uses, idx + k))
+        format!("{}{}{}", if f["skip"] == true { "#[darling(skip)] " } else if f["flatten"] == true && named { "#[darling(flatten)] " } else { "" }, if named { format!("f{}: ", k) } else { String::new() }, field_type(&uses, idx + k))
     };
     let mut first = String::new();
     let derives: Vec<&str> = if case["kind"] == "struct" { vec!["FromMeta", "FromDeriveInput", "FromField", "FromVariant", "FromTypeParam", "FromAttributes"] } else { vec!["FromMeta"] };
